@@ -338,6 +338,79 @@ def team_outputs(V, call_spec, nthreads, reported_max, poison):
     return (None if call_spec.ret == "v" else r["ret"]), res, r["status"]
 
 
+def schedule_outcomes(V, call_spec, threads=(2, 3), bound=1, max_exec=4000, budget_s=10.0, same=None):
+    """Explore every schedule (within `bound` preemptions at the words more than one thread touches) of ONE kernel call from the call
+    tables (a vt.sani.Call) with teams of `threads` logical threads; every outcome - return value and the promised part of the io/out
+    arrays - is compared with the outcome of the team's default schedule by same(ref, got) (default: bytes).  Returns None when the call does not fit the
+    trampoline, else (bad, stats): bad = [(T, schedule)], stats = dict(executions, regions, conflict_words, capped)."""
+    arrays, ints, dbls, floats_at, outs = [], [], [], [], []
+    for a in call_spec.args:
+        if a[0] == "a":
+            arr = a[1].copy()
+            arrays.append(arr)
+            ints.append(arr)
+            if a[2] in ("io", "out"):
+                outs.append((a, arr))
+        elif a[0] == "i":
+            ints.append(a[1])
+        else:
+            if a[0] == "f":
+                floats_at.append(len(dbls))
+            dbls.append(a[1])
+    if len(ints) > 12 or len(dbls) > 8:
+        return None
+    V.register(*arrays)
+    init = [a.copy() for a in arrays]
+    call = V.kernel(call_spec.kernel, ints, dbls, tuple(floats_at), ret=("d" if call_spec.ret == "d" else "i"))
+
+    def prepare():
+        for a, b in zip(arrays, init):
+            a[...] = b
+    decoded = {}
+
+    def observe(ret):
+        res = []
+        for a, arr in outs:
+            prom = a[3]
+            res.append(np.array(arr.reshape(-1)[prom(ret, arr)]) if prom is not None else arr.copy())
+        val = (None if call_spec.ret == "v" else ret, res)
+        key = (repr(val[0]),) + tuple(x.tobytes() for x in res)
+        decoded.setdefault(key, val)
+        return key
+    if same is None:
+        same = lambda a, b: a[0] == b[0] and all(x.tobytes() == y.tobytes() for x, y in zip(a[1], b[1]))
+    V.set_filter([])
+    prepare()
+    r1 = V.run(call, 1, [])
+    refkey = observe(r1["ret"])
+    ref = decoded[refkey]
+    bad, stats = [], {"executions": 1, "regions": int(r1["regions"]), "conflict_words": 0, "capped": False}
+    if r1["regions"] == 0:
+        return bad, stats
+    for T in threads:
+        # the reference of a team is its own default schedule (every thread runs to its next barrier in turn): a few kernels document a
+        # result that depends on how the rows are dealt to the threads, none may depend on the interleaving
+        first = []
+
+        def differs(o):
+            if not first:
+                first.append(o)
+                return False
+            return o == ("DEADLOCK",) or first[0] == ("DEADLOCK",) or not same(decoded[first[0]], decoded[o])
+        r = V.explore(prepare, call, observe, T, bound, max_exec=max_exec, budget_s=budget_s, early_stop=differs)
+        stats["executions"] += r["total_executions"]
+        stats["conflict_words"] = max(stats["conflict_words"], r["filter_size"])
+        stats["capped"] = stats["capped"] or r["capped"]
+        if ("DEADLOCK",) in r["outcomes"]:
+            bad.append((T, r["outcomes"][("DEADLOCK",)]))
+        keys = [o for o in r["outcomes"] if o != ("DEADLOCK",)]
+        for o in keys[1:]:
+            if not same(decoded[keys[0]], decoded[o]):
+                bad.append((T, r["outcomes"][o]))
+    prepare()
+    return bad, stats
+
+
 def callers_interfere(V, spec_a, spec_b, bound=2, max_exec=100000):
     """Two complete kernel calls (vt.sani.Call objects, kernels declared `threadsafe` so that f2py releases the GIL) run as two
     logical threads: explore every interleaving at the words both touch (within `bound` preemptions); each call must leave in its
